@@ -525,7 +525,7 @@ func exitReachableAvoiding(from ssa.Instruction, pass func(ssa.Instruction) bool
 
 // transparent callees: result derives from the arguments.
 var transparentPrefixes = []string{"strings.", "strconv.", "fmt.Sprint", "net.JoinHostPort", "net.SplitHostPort",
-	"net/url.Parse", "(*net/url.URL).String", "(*net/url.URL).EscapedPath", "(*net/url.URL).RequestURI", "path.", "bytes.", "time.Duration.", "(time.Time).Add", "(time.Duration).", "sort.Reverse"}
+	"net/url.Parse", "(*net/url.URL).String", "(*net/url.URL).EscapedPath", "(*net/url.URL).RequestURI", "path.", "bytes.", "time.Duration.", "(time.Time).Add", "(time.Duration).", "sort.Reverse", "io.MultiReader", "io.TeeReader", "io.LimitReader", "bufio.NewReader"}
 
 func isTransparent(name string) bool {
 	for _, p := range transparentPrefixes {
